@@ -219,7 +219,7 @@ def queries(tier):
     quick = tier == "quick"
     qs = []
     if quick:
-        plan = [(None, "every2"), (0, "always"), (1, "every2"), (3, "always"), (4, "every3"), (5, "every2"), (8, "always")]
+        plan = [(None, "every2"), (0, "always"), (1, "every2"), (2, "always"), (3, "always"), (4, "every3"), (5, "every2"), (8, "always")]
     else:
         plan = [(L, pn) for L in [None] + list(range(10)) for pn in ("always", "every2", "every3")]
     for L, pn in plan:
